@@ -480,4 +480,66 @@ theorem find_func_entry_compress (t : RTab) (hwf : t.cmpWF = true) :
   have c2' := c2 b2
   exact compressWith_lookup t hwf _ _ _ a (by omega) b3 (by intro k hk1 hk2; exact c3 k (by omega) hk2) i hi
 
+/-- **Frames through the compressed tables.**  In a world whose programs all satisfy `cmpWF`, chasing a runtime slot
+    with every entry read through FIND_FUNC_ENTRY on the compressed table gives exactly the frame the uncompressed
+    model (`chase`, the subject of `frame_offsets_correct`) gives — for every start slot, offsets and fuel. -/
+theorem chaseC_eq_chase (w : World) (hw : ∀ P ∈ w.progs, (RTab.ofProgram P).cmpWF = true) :
+    ∀ fuel p index fio vio, chaseC w fuel p index fio vio = chase w fuel p index fio vio := by
+  intro fuel
+  induction fuel with
+  | zero => intro p index fio vio; rfl
+  | succ n ih =>
+    intro p index fio vio
+    unfold chaseC chase
+    cases hP : w.progs[p]? with
+    | none => rfl
+    | some P =>
+      have hmem : P ∈ w.progs := List.mem_of_getElem? hP
+      have hwf := hw P hmem
+      simp only [Option.bind_eq_bind, Option.bind_some]
+      cases hfl : P.flags[index]? with
+      | none => simp
+      | some fl =>
+        obtain ⟨c, hc, hall⟩ := find_func_entry_compress (RTab.ofProgram P) hwf
+        have hr : (RTab.ofProgram P).readable = true := by
+          simp only [RTab.cmpWF, Bool.and_eq_true] at hwf
+          exact hwf.1.1
+        have hlen : P.flags.length = P.rt.length := by
+          simp only [RTab.readable, RTab.ofProgram, Bool.and_eq_true, beq_iff_eq] at hr
+          exact hr.1
+        have hi : index < P.rt.length := by
+          have := (List.getElem?_eq_some_iff.mp hfl).1
+          omega
+        have he := hall index hi
+        simp only [RTab.ofProgram] at he hc
+        simp only [Option.bind_eq_bind, Option.bind_some, RTab.ofProgram, hc, he]
+        cases hrt : P.rt[index]? with
+        | none => rfl
+        | some e =>
+          simp only [Option.bind_some]
+          split
+          · cases e with
+            | inh off idx =>
+              simp only
+              cases P.inherit[off]? with
+              | none => rfl
+              | some ihh => simp only [Option.bind_some]; exact ih _ _ _ _
+            | defn a b => rfl
+          · rfl
+
+/-! ### non-vacuity -/
+
+/-- a program that inherits two programs (3 + 2 slots), overrides slot 1 (`defn`), has a taken-over slot 0 (`inh 1 0`,
+    not at its expected place) and two own functions: `cmpWF` holds, the table really is compressed (3 entries
+    omitted), and the chase through the compressed table reaches the same frame -/
+def exTab : RTab :=
+  { flags := [nameInherited, 0, nameInherited, nameInherited, nameInherited, 0, 0],
+    rt := [.inh 1 0, .defn 0 0, .inh 0 2, .inh 1 0, .inh 1 1, .defn 1 0, .defn 2 0],
+    inherit := [{ prog := 0, fio := 0, vio := 0 }, { prog := 1, fio := 3, vio := 1 }] }
+
+example : exTab.cmpWF = true ∧
+    (compress exTab).map (fun c => (c.firstDefined, c.firstOverload, c.index, c.offsets.length)) = some (5, 0, [0, 1], 4) ∧
+    (compress exTab).map (fun c => decompress exTab.inherit c 7) = some (exTab.rt.map some) := by
+  decide
+
 end NV.C07
